@@ -397,6 +397,10 @@ func (app *App) blockEnder() blockEnder {
 	return func(req RequestEndBlock) ResponseEndBlock {
 		defer app.handlePanic()
 
+		// the transactions may have used up the block gas: every store access of the hooks below
+		// would fail then, and the fee distribution ends in logger.Fatal
+		app.Context.deliver = app.Context.deliver.Unmetered()
+
 		fee, err := app.Context.feePool.WithState(app.Context.deliver).Get([]byte(fees.POOL_KEY))
 		app.logger.Detail("endblock fee", fee, err)
 		updates := app.Context.validators.WithState(app.Context.deliver).GetEndBlockUpdate(app.Context.ValidatorCtx(), req)
